@@ -1,6 +1,7 @@
 import Resolvo.Graph
 import Resolvo.Abs.Fail
 import Resolvo.RenderTruth
+import Resolvo.MDet.CheckedProofs
 /-!
 # C03 — a conflict report is a truthful, self-contained proof of unsatisfiability
 
@@ -43,6 +44,19 @@ theorem edges_truthful (U : Universe) (P : Problem) (history : List Event) (st :
     ∀ x ∈ Render.nodeEdges (Render.buildGraph U st.origins (ids.map (fun id => (st.db.getD id default).kind))),
       Render.EdgeTrue U P x.1 x.2.1 x.2.2 :=
   Render.buildGraph_edges_true U P st (run_inv U P history {} st ⟨linv_init, sinv_init U P⟩ hacc).2 ids hids
+
+/-- **C03 for the checked model** (all universes / problems / solver states / fuel): an Unsolvable answer of the checked
+    deterministic model of `Solver::solve` comes with a conflict graph — the exact model of `Conflict::graph` applied to the
+    clauses the conflict blames — in which every edge states a true fact of the provider's data, every node is reachable
+    from the root, and the facts shown in the graph alone (with one-solvable-per-package for forbid-joined nodes) admit no
+    selection that installs the root. -/
+theorem unsat_graph_checked (U : Universe) (P : Problem) (fuel : Nat) (s : MDet.S) (c : List Nat)
+    (h : (MDet.solveChecked U P fuel s).1 = .unsat c) :
+    ∃ st, runOpt U P (MDet.absEvents (MDet.solveRun U P fuel { s with trace := [] }).2.trace.reverse) = some st ∧
+      (∀ x ∈ Render.nodeEdges (MDet.conflictGraphOf U st c), Render.EdgeTrue U P x.1 x.2.1 x.2.2) ∧
+      reachableB (MDet.graphEdges (MDet.conflictGraphOf U st c)) (MDet.conflictGraphOf U st c).nodes.toList = true ∧
+      ¬ ∃ a, evalCnf a (cnfOfGraph (MDet.graphEdges (MDet.conflictGraphOf U st c))) = true :=
+  MDet.solveChecked_unsat_graph U P fuel s c h
 
 /-! Non-vacuity: the graph "root requires {s0}; s0 requires a package without candidates". -/
 def exG : G := [⟨.root, .solv 0, .req (.single 0)⟩, ⟨.solv 0, .unresolved, .req (.single 1)⟩]
